@@ -10,6 +10,7 @@ type Config struct {
 	grammar
 	Cache           map[string][]byte
 	StrictVariables bool
+	includeDepth    int // how many {% include %} tags deep the current render is
 }
 
 type grammar struct {
